@@ -13,7 +13,7 @@ from tiv.sem import trace
 
 RULES = {
     "MEMO": "memo safety (shared, rules/common.py): a memoised function in this property's files (or called from them) is a function of its "
-            "arguments only (no terminal/ambient/receiver state outside the key) and no caller mutates its result in place",
+            "arguments only (no terminal/ambient/receiver state outside the key) and no caller mutates its result in place; the key under which utils.cached stores a result contains `args` and `kwargs.items()` (keyword values, not only names)",
     "R1": "every function that stores to utils._swap_win_size, or stores True to utils._queries_enabled, resets "
           "utils._cell_size_cache[:] to zeros inside `with utils._cell_size_lock` on every normal path after the store; the "
           "store of _queries_enabled=True precedes the invalidations (a concurrent reader must not re-fill a cache with a "
@@ -23,7 +23,7 @@ RULES = {
           "invalidated by enable_queries()",
     "R3": "the memo decorators are atomic: lookup, call of the wrapped function and store happen inside one `with lock` on "
           "an RLock created once per decorated function; invalidate takes the same lock; terminal_size_cached stores the "
-          "terminal size it compared",
+          "terminal size it compared; every value stored by terminal_size_cached (into a variable or an entry) is the pair (value, the terminal size compared)",
     "R4": "get_cell_size: the cache key compared and the key stored are the same get_terminal_size() value read once under "
           "_cell_size_lock, and every path that computes a size reaches the store before returning (hit edges are recognised from the traced tests; every return reachable without a hit edge is dominated by the store)",
     "R5": "set_cell_ratio stores a number for FIXED/explicit ratios and None for DYNAMIC; get_cell_ratio returns the stored "
